@@ -1811,6 +1811,11 @@ func (b Block) StringDump(verbose bool) string {
 
 // assumes b.data is set and we need to compute all other properties of a Block
 func (b *Block) setExportedVars() (err error) {
+	if len(b.data) < 16 {
+		return fmt.Errorf("block data of %d bytes is too short for its header", len(b.data))
+	}
+	dataLen := uint64(len(b.data))
+
 	// Get the sub-blocks along each dimension
 	gx := binary.LittleEndian.Uint32(b.data[0:4])
 	gy := binary.LittleEndian.Uint32(b.data[4:8])
@@ -1833,6 +1838,9 @@ func (b *Block) setExportedVars() (err error) {
 		return fmt.Errorf("number of labels (%d) exceeds what can be contained in max block size %d", numLabels, MaxBlockSize)
 	}
 
+	if dataLen < 16+uint64(numLabels)*8 {
+		return fmt.Errorf("block data of %d bytes is too short for its %d labels", len(b.data), numLabels)
+	}
 	b.Labels, err = dvid.AliasByteToUint64(b.data[16 : 16+numLabels*8])
 	if err != nil {
 		return
@@ -1848,6 +1856,9 @@ func (b *Block) setExportedVars() (err error) {
 	pos := uint32(16)
 	pos += numLabels * 8
 	nbytes := numSubBlocks * 2
+	if dataLen < uint64(pos)+uint64(nbytes) {
+		return fmt.Errorf("block data of %d bytes is too short for its %d sub-blocks", len(b.data), numSubBlocks)
+	}
 	b.NumSBLabels, err = dvid.AliasByteToUint16(b.data[pos : pos+nbytes])
 	if err != nil {
 		return
@@ -1859,6 +1870,9 @@ func (b *Block) setExportedVars() (err error) {
 
 	pos += nbytes
 	subBlockIndexBytes := numSubBlockIndices * 4
+	if dataLen < uint64(pos)+uint64(subBlockIndexBytes) {
+		return fmt.Errorf("block data of %d bytes is too short for its %d sub-block indices", len(b.data), numSubBlockIndices)
+	}
 	b.SBIndices, err = dvid.AliasByteToUint32(b.data[pos : pos+subBlockIndexBytes])
 	if err != nil {
 		return
